@@ -33,9 +33,10 @@ R1 == [id |-> 1, lines |-> 3, width |-> 1, scroll |-> 1]
 R2 == [id |-> 2, lines |-> 0, width |-> 0, scroll |-> 0]
 BaseG == [tsmap |-> <<>>, css |-> <<>>, regions |-> <<>>, cues |-> <<>>]
 
-TruthsH == {[tsmap |-> tm, css |-> cs, regions |-> rg, cues |-> <<[SimpleCue(0, 1500) EXCEPT !.region = rr]>>] :
+\* the region reference is combined with every cue-setting subset (a setting may not hide the region)
+TruthsH == {[tsmap |-> tm, css |-> cs, regions |-> rg, cues |-> <<[SimpleCue(0, 1500) EXCEPT !.region = rr, !.set = st]>>] :
               tm \in {<<>>, <<[local |-> 0, mpegts |-> 900000]>>, <<[local |-> 3723004, mpegts |-> 123456789]>>},
-              cs \in {<<>>, <<1>>, <<1, 2>>}, rg \in {<<>>, <<R1>>, <<R1, R2>>, <<R2>>}, rr \in {0, 1, 2}}
+              cs \in {<<>>, <<1>>, <<1, 2>>}, rg \in {<<>>, <<R1>>, <<R1, R2>>, <<R2>>}, rr \in {0, 1, 2}, st \in Sets}
 TruthsHOK == {t \in TruthsH : t.cues[1].region = 0 \/ \E i \in DOMAIN t.regions : t.regions[i].id = t.cues[1].region}
 
 TruthsC == {[BaseG EXCEPT !.cues = <<[s |-> tp[1], e |-> tp[2], id |-> id, notes |-> nt, set |-> st, region |-> 0, lines |-> ls]>>] :
